@@ -145,7 +145,8 @@ func ruleC13parts(p *Prog, r *Res, ruleB string, partA, partB bool) {
 			r.Bad(ruleA, key+" released in completion", p.Pos(jf.Node()), fmt.Sprintf("releaser parameter is used in %d posted closures (expected exactly 1)", len(users)))
 			return
 		}
-		l := users[0]
+		l, tr := ctx.effective(users[0])
+		obj = tr(obj)
 		lfl := p.Flow(l)
 		pass := func(n ast.Node) bool { return isRelease(l, n, obj) }
 		res = lfl.MustPass(pass)
